@@ -1,6 +1,7 @@
 import GluonModel.Sexp
 import GluonModel.Prims
 import GluonModel.Frames
+import GluonModel.Generated.PrimTable
 open GluonModel GluonModel.Prims GluonModel.RustStd
 
 def strBytes (s : String) : Bytes := s.toUTF8.toList.map (·.toNat)
@@ -50,8 +51,21 @@ def parseStep : Sexp → Option Step
   | .list [.atom "fail", d, v] => do pure (.fail (← d.toNat?) (← v.toNat?))
   | _ => none
 
+/-- Table coverage (what `decide` would take minutes to evaluate in the kernel): entries of the modelled
+    modules without a model, offending names that are not table entries, names in more than one table. -/
+def coverage : String :=
+  let tab := GluonModel.Generated.primTable
+  let unm := (tab.filter fun e => modelledModules.contains e.module && e.kind != "bytecode" && !isModelled e.name).map (·.name)
+  let ghost := offending.filter fun n => !(tab.any (·.name == n))
+  let all := offendingSems.map (·.1) ++ guardedSems.map (·.1) ++ totalSems.map (·.1)
+  let dup := all.filter fun n => (all.filter (· == n)).length > 1
+  let stray := all.filter fun n => !(tab.any (·.name == n))
+  let shw (l : List String) := String.join (l.map fun n => " " ++ Sexp.quote n)
+  "(coverage (unmodelled" ++ shw unm ++ ") (ghost" ++ shw ghost ++ ") (dup" ++ shw dup ++ ") (stray" ++ shw stray ++ "))"
+
 open GluonModel.Frames in
 def handle : List Sexp → String
+  | [.atom "coverage"] => coverage
   | .atom "prim" :: .str name :: .atom mode :: args => handlePrim name mode args
   | [.atom "hist", .atom which, .list steps] =>
     match steps.mapM parseStep with
